@@ -61,6 +61,20 @@ func c05Gen(g *core.Gen) {
 			rec(nil)
 		}
 	}
+	if g.Thorough() {
+		// four files, every goroutine count 1..8, block counts 1..20
+		for _, s := range []int{4, 8} {
+			for _, a := range []int{1, s, s + 1, 2*s + 3} {
+				for _, b := range []int{1, s - 1, 2 * s} {
+					for p := 1; p <= 20; p++ {
+						for gg := 1; gg <= 8; gg++ {
+							g.Emit(&c05Case{Sizes: []int{a, b, s, 3*s - 1}, Names: []string{"w/a", "w/b", "c", "d.e"}, Slice: s, Blocks: p, G: gg})
+						}
+					}
+				}
+			}
+		}
+	}
 	// slice sizes, block counts with several volume files (doubling, short last volume, >=100), goroutines
 	for _, s := range []int{4, 8, 12, 64, 2000} {
 		for _, p := range []int{1, 2, 3, 7, 8, 15, 16, 17, 100, 101, 127, 128, 300} {
